@@ -22,13 +22,13 @@ var c09Base = map[string]string{
 	"tsconfig.json":                 `{"extends":"./tsconfig.base.json","compilerOptions":{"jsx":"react"}}`,
 	"tsconfig.base.json":            `{"compilerOptions":{"useDefineForClassFields":false}}`,
 	"package.json":                  `{"name":"root"}`,
-	"src/entry.tsx":                 "import {a} from './a';\nimport b from './b';\nimport './c.css';\nimport d from './d.json';\nimport p from 'pkg';\nimport {E} from './enum';\nimport {K} from './klass';\nconsole.log(a, b, d, p, E.X, new K, <span/>);\n",
-	"src/second.ts":                 "import {a} from './a';\nimport {a as unusedA} from './a';\nimport {E} from './enum';\nimport {D} from './deco';\nexport const second = [a, E.Y, D];\n",
+	"src/entry.tsx":                 "import {a} from './a';\nimport b from './b';\nimport './c.css';\nimport d, {k1} from './d.json';\nimport p from 'pkg';\nimport {E} from './enum';\nimport {K} from './klass';\nconsole.log(a, b, d, k1, p, E.X, new K, <span/>);\n",
+	"src/second.ts":                 "import {a} from './a';\nimport {a as unusedA} from './a';\nimport {E} from './enum';\nimport {D} from './deco';\nimport dj from './d.json';\nexport const second = [a, E.Y, D, dj.k2];\n",
 	"src/deco.ts":                   "function dec(...args: any[]): any {}\n@dec export class D { @dec m() {} }\n",
 	"src/a.js":                      "export const a = 'a1';\n",
 	"src/b.jsx":                     "export default <div>b<>f</></div>;\n",
 	"src/c.css":                     "a { color: red }\n",
-	"src/d.json":                    "{\"d\": 1}",
+	"src/d.json":                    "{\"k1\": [1, 2], \"k2\": {\"d\": 1}}",
 	"src/enum.ts":                   "export const enum E { X = 1, Y = 2 }\n",
 	"src/klass.ts":                  "export class K { x; y = 1 }\n",
 	"node_modules/pkg/package.json": `{"name":"pkg","main":"./main.js"}`,
@@ -73,8 +73,8 @@ var c09Edits = []c09Edit{
 	{"edit-a-different-length", toggle("src/a.js", "export const a = 'a1';\n", "export const a = 'a-longer';\n")},
 	{"break-b", toggle("src/b.jsx", "export default <div>b<>f</></div>;\n", "export default <div>b<>f</></div;\n")},
 	{"shadow-a-with-ts", toggleFile("src/a.ts", "export const a: string = 'a-from-ts';\n")},
-	{"delete-d-json", toggleFile("src/d.json", "{\"d\": 1}")},
-	{"edit-d-json", toggle("src/d.json", "{\"d\": 1}", "{\"d\": 2}")},
+	{"delete-d-json", toggleFile("src/d.json", "{\"k1\": [1, 2], \"k2\": {\"d\": 1}}")},
+	{"edit-d-json", toggle("src/d.json", "{\"k1\": [1, 2], \"k2\": {\"d\": 1}}", "{\"k1\": [1, 3], \"k2\": {\"d\": 2}}")},
 	{"pkg-main", toggle("node_modules/pkg/package.json", `{"name":"pkg","main":"./main.js"}`, `{"name":"pkg","main":"./alt.js"}`)},
 	{"pkg-type-module", toggle("node_modules/pkg/package.json", `{"name":"pkg","main":"./main.js"}`, `{"name":"pkg","main":"./esm.js","type":"module"}`)},
 	{"pkg-side-effects", toggle("node_modules/pkg/package.json", `{"name":"pkg","main":"./main.js"}`, `{"name":"pkg","main":"./main.js","sideEffects":false}`)},
@@ -100,7 +100,7 @@ var c09Edits = []c09Edit{
 	}},
 	{"klass-edit", toggle("src/klass.ts", "export class K { x; y = 1 }\n", "export class K { x; y = 2; z }\n")},
 	{"add-react-shim", toggleFile("node_modules/react/jsx-runtime.js", "exports.jsx = exports.jsxs = function(){}; exports.Fragment = 0;\n")},
-	{"import-from-empty-dir", toggle("src/second.ts", "import {a} from './a';\nimport {a as unusedA} from './a';\nimport {E} from './enum';\nimport {D} from './deco';\nexport const second = [a, E.Y, D];\n", "import {a} from './a';\nimport {a as unusedA} from './a';\nimport {E} from './enum';\nimport {D} from './deco';\nexport const second = [a, E.Y, D];\nimport './emptylib/foo';\n")},
+	{"import-from-empty-dir", toggle("src/second.ts", "import {a} from './a';\nimport {a as unusedA} from './a';\nimport {E} from './enum';\nimport {D} from './deco';\nimport dj from './d.json';\nexport const second = [a, E.Y, D, dj.k2];\n", "import {a} from './a';\nimport {a as unusedA} from './a';\nimport {E} from './enum';\nimport {D} from './deco';\nimport dj from './d.json';\nexport const second = [a, E.Y, D, dj.k2];\nimport './emptylib/foo';\n")},
 	{"create-foo-in-empty-dir", toggleFile("src/emptylib/foo.js", "console.log('foo');\n")},
 	{"nearer-node-modules-file", toggleFile("src/node_modules/pkg.js", "module.exports = 'nearer-pkg-file';\n")},
 	// ---- group B: every other tsconfig.json setting esbuild reads (explored with the cjs/iife configurations, see c09GroupB)
